@@ -29,6 +29,35 @@ def run(ctx):
     fields = {f["name"]: f for f in adt["variants"][0]["fields"]}
     ctx.check("buffer-discipline", "fields-private", all(f["vis"] != "pub" for f in fields.values()), "MsgSigner fields are private", "MsgSigner has public fields")
     # who writes buf / signing_key
+    def ref_written(fn, r, depth=0):
+        """the `&mut` reference held in local r is written through, handed to something that takes `&mut`, or escapes"""
+        if depth > 4:
+            return True
+        for bl in fn.blocks:
+            for st in bl.stmts:
+                if st["k"] != "assign":
+                    continue
+                d = st["dst"]
+                if d["l"] == r and d.get("p"):
+                    return True                                   # *r = .. / (*r).f = ..
+                rv = st["rv"]
+                if rv["k"] in ("ref", "rawptr") and rv.get("place", {}).get("l") == r:
+                    if (rv.get("mut") or rv["k"] == "rawptr") and ref_written(fn, d["l"], depth + 1):
+                        return True                               # reborrowed mutably and that one is written
+                elif rv["k"] == "use":
+                    o = rv["op"].get("mv") or rv["op"].get("cp")
+                    if o and o["l"] == r and not o.get("p") and ref_written(fn, d["l"], depth + 1):
+                        return True                               # moved into another local
+                elif rv["k"] == "agg" and any((o.get("mv") or o.get("cp") or {}).get("l") == r for o in rv.get("ops", [])):
+                    return True                                   # stored
+            t = bl.term
+            if t["k"] == "call":
+                for i, a in enumerate(t.get("args", [])):
+                    o = a.get("mv") or a.get("cp")
+                    if o and o["l"] == r and not o.get("p") and (t.get("arg_tys") or [""] * (i + 1))[i].startswith("&mut"):
+                        return True
+        return False
+
     writers = {"buf": set(), "signing_key": set()}
     for fn in P.fns.values():
         if fn.derived:
@@ -37,7 +66,10 @@ def run(ctx):
         for bl in fn.blocks:
             for st in bl.stmts:
                 if st["k"] == "assign":
-                    for pl in (st["dst"], st["rv"].get("place") if st["rv"]["k"] in ("ref", "rawptr") and (st["rv"].get("mut") or st["rv"]["k"] == "rawptr") else None):
+                    borrowed = st["rv"].get("place") if st["rv"]["k"] in ("ref", "rawptr") and (st["rv"].get("mut") or st["rv"]["k"] == "rawptr") else None
+                    if borrowed and st["rv"]["k"] == "ref" and not st["dst"].get("p") and not ref_written(fn, st["dst"]["l"]):
+                        borrowed = None      # `let Self { signing_key, buf } = self;` with the key only read through the borrow
+                    for pl in (st["dst"], borrowed):
                         if pl:
                             for e in pl.get("p", []):
                                 if isinstance(e, dict) and e.get("adt") == S and e.get("name") in writers:
@@ -81,6 +113,28 @@ def run(ctx):
     # capacity management does not change the contents
     others = [o for o in others if o not in ("reserve_exact", "shrink_to", "shrink_to_fit", "capacity", "try_reserve", "try_reserve_exact")]
     oku = len(apps) == 1 and appended(apps[0][2][1]) == ("param", up.path, 2) and not up.in_loop(apps[0][0]) and on_every_path(up, uev, apps[0][0], ("param", up.path, 2)) and not others
+    if not oku and len(apps) == 1 and not others and len(up.in_loop(apps[0][0])) == 1:
+        # `for c in data.chunks(N) { buf.extend_from_slice(c) }`: the chunks of a slice, each appended whole and in order until the iterator is
+        # exhausted, are the slice
+        from lib import iter_elem
+        ie = iter_elem(W, appended(apps[0][2][1]))
+        lp = up.in_loop(apps[0][0])[0]
+        src = ie["container"] if ie else None
+        while isinstance(src, tuple) and src and src[0] == "reader":
+            src = src[1]
+        if ie and ie["what"] == "elem" and not ie["fields"] and is_call(src) and callee_name(src[1]) in ("chunks", "chunks_exact") and len(src[2]) == 2 and \
+                W.expand(src[2][0]) == ("param", up.path, 2) and (callee_name(src[1]) == "chunks" or src[2][1] == ("int", 1)):
+            nb = ie["site"][1]
+            exits = [e for e in lp["exits"] if e[1] not in up.diverging()]
+            hdr_sw = up.blocks[nb].term.get("tgt")
+            some_succ = None
+            if hdr_sw is not None and up.blocks[hdr_sw].term["k"] == "switch":
+                dsw = up.blocks[hdr_sw].term
+                some_succ = next((tg for v_, tg in dsw["cases"] if v_ == 1), None)
+                if some_succ is None and len(dsw["cases"]) == 1 and dsw["cases"][0][0] == 0:
+                    some_succ = dsw["otherwise"]
+            oku = len(exits) == 1 and exits[0][0] == hdr_sw and some_succ is not None and values.must_pass(up, [apps[0][0]], from_block=some_succ, to_blocks={lp["header"]}) and \
+                on_every_path(up, uev, nb, ("param", up.path, 2))
     ctx.check("buffer-discipline", "update/appends-exactly-its-parameter", oku, "update appends exactly its parameter, once, on every path",
               "update's effect on buf is %s" % [(e[1], [fmt(a) for a in e[2][1:]]) for e in evs], ctx.loc(up))
     # from_seed: empty buffer
@@ -118,7 +172,8 @@ def run(ctx):
     # ------------------------------------------------------------------ verifier
     vu = ctx.fn(V + "::update")
     vev = W.ev(vu.path)
-    evs = [(b, callee_name(c), vev.call_args(b)) for (b, c, argi, ap) in vev.events_on(1, ("buf",)) if argi == 0 and vu.blocks[b].term["arg_tys"][0].startswith("&mut")]
+    evs = [(b, callee_name(c), vev.call_args(b)) for (b, c, argi, ap) in vev.events_on(1, ("buf",)) if argi == 0 and vu.blocks[b].term["arg_tys"][0].startswith("&mut")
+           and callee_name(c) not in ("reserve", "reserve_exact", "shrink_to_fit", "try_reserve")]
     okv = len(evs) == 1 and evs[0][1] in ("extend_from_slice", "extend") and evs[0][2][1] == ("param", vu.path, 2) and not vu.in_loop(evs[0][0])
     ctx.check("verifier", "update/appends-exactly-its-parameter", okv, "MsgVerifier::update appends exactly its parameter", "MsgVerifier::update does %s" % [(e[1]) for e in evs], ctx.loc(vu))
     vf = ctx.fn(V + "::verify")
